@@ -22,7 +22,29 @@ in the class body conforms to the annotation. Nothing is assumed about the *valu
 structure EnvOK : Prop where
   prepWT : ∀ p inst v, WT E inst → WT E v → WT E (E.prep p inst v)
   defaultWT : ∀ c a sp, E.attr? c a = some sp → WT E sp.defaultVal
-  classAttrWT : ∀ c a sp d, E.attr? c a = some sp → sp.classAttr = some d → WT E d ∧ conforms E sp.ty d = true
+  classAttrWT : ∀ c a sp d, E.attr? c a = some sp → sp.classAttr = some d → WT E d ∧ conformsDeep E sp.ty d = true
+  /-- (the model's `resetDependant` stores the default of an `invalidated_by` dependant after `check_type` alone;
+  the code runs it through the whole assignment pipeline) -/
+  depDefaultDeep : ∀ c a sp, E.attr? c a = some sp → sp.invalidatedBy ≠ [] →
+    conforms E sp.ty sp.defaultVal = true → conformsDeep E sp.ty sp.defaultVal = true
+
+/-! ## `conformsDeep` vs `conforms` (= `check_type`) -/
+
+theorem conformsDeep_conforms {ty : Ty} {v : Val} (h : conformsDeep E ty v = true) : conforms E ty v = true := by
+  unfold conformsDeep at h
+  simp only [Bool.and_eq_true] at h
+  exact h.1
+
+/-- for every annotation other than the abstract collection generics, `conformsDeep` is `check_type` -/
+theorem conformsDeep_eq {ty : Ty} (v : Val) (h : ty.isAbstract = false) : conformsDeep E ty v = conforms E ty v := by
+  unfold conformsDeep
+  cases ty <;> simp [Ty.isAbstract] at h ⊢
+
+/-- the value about to be stored is fine as soon as `check_type` accepts it -/
+def DeepIf (ty : Ty) (v : Val) : Prop := conforms E ty v = true → conformsDeep E ty v = true
+
+theorem deepIf_of_not_abstract {ty : Ty} (v : Val) (h : ty.isAbstract = false) : DeepIf E ty v := by
+  intro hc; rw [conformsDeep_eq E v h]; exact hc
 
 /-! ## basic facts about `wt` -/
 
@@ -65,7 +87,7 @@ theorem attr?_of_cls {c a : Nat} {cs : ClassSpec} (hc : E.cls? c = some cs) : E.
 
 /-- what the invariant says about one field -/
 def FieldOK (c a : Nat) (v : Val) : Prop :=
-  v = MISSING ∨ ((∀ sp, E.attr? c a = some sp → conforms E sp.ty v = true) ∧ WT E v)
+  v = MISSING ∨ ((∀ sp, E.attr? c a = some sp → conformsDeep E sp.ty v = true) ∧ WT E v)
 
 theorem wtFlds_cons (c a : Nat) (v : Val) (r : Flds) :
     wtFlds E c (.cons a v r) = true ↔ FieldOK E c a v ∧ wtFlds E c r = true := by
@@ -144,7 +166,7 @@ theorem wt_getAttr (hE : EnvOK E) (obj : Val) (a : Nat) (h : WT E obj) : WT E (E
 /-- the value read from a managed attribute conforms to its annotation (or is MISSING) -/
 theorem getAttr_conforms (hE : EnvOK E) (c : Nat) (fs : Flds) (a : Nat) (sp : AttrSpec) (h : WT E (.inst c fs))
     (hsp : E.attr? c a = some sp) :
-    E.getAttr (.inst c fs) a = MISSING ∨ conforms E sp.ty (E.getAttr (.inst c fs) a) = true := by
+    E.getAttr (.inst c fs) a = MISSING ∨ conformsDeep E sp.ty (E.getAttr (.inst c fs) a) = true := by
   unfold Env.getAttr
   simp only [hsp]
   split
@@ -266,12 +288,15 @@ theorem wtVals_dedup : ∀ (ys acc : Vals), wtVals E ys = true → wtVals E acc 
 
 /-! ## invalidation keeps instances well typed -/
 
-theorem wt_resetDependant (hE : EnvOK E) (obj : Val) (d : Nat) (h : WT E obj) : WT E (resetDependant E obj d) := by
+theorem wt_resetDependant (hE : EnvOK E) (obj : Val) (d a : Nat) (h : WT E obj)
+    (hdep : dependsOn E obj d a = true) : WT E (resetDependant E obj d) := by
   unfold resetDependant
+  unfold dependsOn at hdep
   cases hsp : specOf E obj d with
   | none => exact h
   | some sp =>
-    simp only []
+    rw [hsp] at hdep
+    simp only [] at hdep ⊢
     obtain ⟨c, fs, rfl, hattr⟩ := SpecVerif.C03.Proofs.specOf_inst' E hsp
     split
     · exact wt_setField E d MISSING ⟨fs, rfl⟩ h (Or.inl rfl)
@@ -282,7 +307,9 @@ theorem wt_resetDependant (hE : EnvOK E) (obj : Val) (d : Nat) (h : WT E obj) : 
         refine ⟨?_, hE.defaultWT c d sp hattr⟩
         intro sp' hsp'
         rw [hattr] at hsp'; cases hsp'
-        exact hconf
+        have hne : sp.invalidatedBy ≠ [] := by
+          intro he; rw [he] at hdep; simp at hdep
+        exact hE.depDefaultDeep c d sp hattr hne hconf
       · exact h
 
 theorem wt_invalidateAux (hE : EnvOK E) (names : List Nat) :
@@ -301,7 +328,8 @@ theorem wt_invalidateAux (hE : EnvOK E) (names : List Nat) :
         simp only [List.foldl]
         apply ih
         split
-        · exact wt_invalidateAux hE names k _ x (wt_resetDependant E hE init x hi)
+        · rename_i hdep
+          exact wt_invalidateAux hE names k _ x (wt_resetDependant E hE init x a hi hdep)
         · exact hi
     exact this names obj h
 
@@ -501,6 +529,157 @@ theorem wt_mutateValue_succ (hE : EnvOK E) (n : Nat) (hc : CtorOK E (construct E
         exact wt_applyOpt E p.transform value' hp.transform h2
 
 
+/-! ## container classes `check_type` does not look inside: the per-item pass checks every item -/
+
+theorem Vals_all_snoc (p : Val → Bool) (x : Val) : ∀ (xs : Vals), (xs.snoc x).all p = (xs.all p && p x)
+  | .nil => by simp [Vals.snoc, Vals.all]
+  | .cons v vs => by simp [Vals.snoc, Vals.all, Vals_all_snoc p x vs, Bool.and_assoc]
+
+theorem Vals_all_dedup (p : Val → Bool) : ∀ (ys acc : Vals), ys.all p = true → acc.all p = true →
+    (dedupVals ys acc).all p = true
+  | .nil, acc, _, h2 => h2
+  | .cons x xs, acc, h1, h2 => by
+    simp only [Vals.all, Bool.and_eq_true] at h1
+    simp only [dedupVals]
+    apply Vals_all_dedup p xs _ h1.2
+    split
+    · exact h2
+    · rw [Vals_all_snoc]; simp [h2, h1.1]
+
+/-- every item `_prepare_items` puts back has passed the checking inserter -/
+theorem prepItems_conforms : ∀ (n : Nat) (inst : Val) (sp : AttrSpec) (xs acc r : Vals),
+    acc.all (conforms E sp.ty.itemTy) = true → prepItems E n inst sp xs acc = .ok r →
+    r.all (conforms E sp.ty.itemTy) = true
+  | 0, inst, sp, xs, acc, r, _, h => by rw [prepItems] at h; cases h
+  | n+1, inst, sp, .nil, acc, r, hacc, h => by
+    rw [prepItems] at h
+    · cases h; exact hacc
+    · simp
+  | n+1, inst, sp, .cons x xs, acc, r, hacc, h => by
+    rw [prepItems] at h
+    split at h
+    · cases h
+    · split at h
+      · cases h
+      · rename_i y _ hc
+        refine prepItems_conforms n inst sp xs (acc.snoc y) r ?_ h
+        rw [Vals_all_snoc]
+        simp only [Bool.not_eq_true, Bool.not_eq_eq_eq_not, Bool.not_true, Bool.not_false] at hc
+        simp [hacc]
+        simpa using hc
+
+theorem kvs_all_set' (p : Val → Val → Bool) (k v : Val) (hp : p k v = true) :
+    ∀ (kvs : KVs), kvs.all p = true → (kvs.set k v).all p = true
+  | .nil, _ => by simp [KVs.set, KVs.all, hp]
+  | .cons k' v' r, h => by
+    simp only [KVs.all, Bool.and_eq_true] at h
+    simp only [KVs.set]
+    split
+    · rename_i heq; subst heq; simp [KVs.all, hp, h.2]
+    · simp [KVs.all, h.1, kvs_all_set' p k v hp r h.2]
+
+/-- every entry `add_items` of a mapping inserts has passed the checking inserter (value and key) -/
+theorem addItemsDict_conforms : ∀ (n : Nat) (inst : Val) (sp : AttrSpec) (kt vt : Ty) (kvs acc : KVs) (r : Val),
+    acc.all (fun k v => conforms E kt k && conforms E vt v) = true →
+    addItemsDict E n inst sp kt vt kvs acc = .ok r →
+    ∃ out, r = .dict out ∧ out.all (fun k v => conforms E kt k && conforms E vt v) = true
+  | 0, inst, sp, kt, vt, kvs, acc, r, _, h => by rw [addItemsDict] at h; cases h
+  | n+1, inst, sp, kt, vt, .nil, acc, r, hacc, h => by
+    rw [addItemsDict] at h
+    · cases h; exact ⟨acc, rfl, hacc⟩
+    · simp
+  | n+1, inst, sp, kt, vt, .cons k x rest, acc, r, hacc, h => by
+    rw [addItemsDict] at h
+    split at h
+    · cases h
+    · split at h
+      · cases h
+      · split at h
+        · cases h
+        · rename_i y _ hv hk
+          refine addItemsDict_conforms n inst sp kt vt rest (acc.set k y) r ?_ h
+          apply kvs_all_set' _ k y _ acc hacc
+          have hv' : conforms E vt y = true := by simpa using hv
+          have hk' : conforms E kt k = true := by simpa using hk
+          simp [hv', hk']
+
+theorem abstract_conforms_cases {ty : Ty} {v : Val} (habs : ty.isAbstract = true) (hc : conforms E ty v = true) :
+    (∃ t xs, ty = .mseq t ∧ v = .list xs) ∨ (∃ t xs, ty = .mset t ∧ v = .set xs) ∨
+      (∃ k w kvs, ty = .mmap k w ∧ v = .dict kvs) := by
+  cases ty <;> simp [Ty.isAbstract] at habs <;> cases v <;> simp [conforms] at hc <;> simp
+
+/-- **the per-item pass.** For an attribute annotated with a container class `check_type` does not look inside,
+whatever `CollectionAttrMutator.prepare()` lets through has conforming items (keys and values). -/
+theorem collPrepare_deep (n : Nat) (inst : Val) (sp : AttrSpec) (v r : Val) (habs : sp.ty.isAbstract = true)
+    (h : collPrepare E n inst sp v = .ok r) : conformsDeep E sp.ty r = true := by
+  cases n with
+  | zero => rw [collPrepare] at h; cases h
+  | succ n =>
+    unfold collPrepare at h
+    simp only [habs, if_true] at h
+    split at h
+    · cases h
+    split at h
+    · cases h
+    rename_i hconf
+    have hconf' : conforms E sp.ty v = true := by simpa using hconf
+    split at h
+    · -- the empty container
+      rename_i hne
+      cases h
+      rcases abstract_conforms_cases E habs hconf' with ⟨t, xs, hty, rfl⟩ | ⟨t, xs, hty, rfl⟩ | ⟨k, w, kvs, hty, rfl⟩
+      · rw [hty]; cases xs <;> simp [nonEmptyColl, Vals.isEmpty] at hne
+        simp [conformsDeep, conforms, Vals.all]
+      · rw [hty]; cases xs <;> simp [nonEmptyColl, Vals.isEmpty] at hne
+        simp [conformsDeep, conforms, Vals.all]
+      · rw [hty]; cases kvs <;> simp [nonEmptyColl, KVs.isEmpty] at hne
+        simp [conformsDeep, conforms, KVs.all]
+    · by_cases hip : sp.itemPrep.isSome = true
+      · simp only [hip, if_true] at h; cases h
+      simp only [hip, if_false, Bool.false_eq_true] at h
+      rcases abstract_conforms_cases E habs hconf' with ⟨t, xs, hty, rfl⟩ | ⟨t, xs, hty, rfl⟩ | ⟨k, w, kvs, hty, rfl⟩
+      · -- MutableSequence[t], a list
+        rw [hty] at h ⊢
+        simp only [] at h
+        obtain ⟨ys, hys, rfl⟩ := map_ok h
+        have hall := prepItems_conforms E n inst sp xs .nil ys rfl hys
+        rw [hty] at hall
+        simp only [Ty.itemTy] at hall
+        simp [conformsDeep, conforms, hall]
+      · -- MutableSet[t], a set
+        rw [hty] at h ⊢
+        simp only [] at h
+        obtain ⟨ys, hys, rfl⟩ := map_ok h
+        have hall := prepItems_conforms E n inst sp xs .nil ys rfl hys
+        rw [hty] at hall
+        simp only [Ty.itemTy] at hall
+        simp [conformsDeep, conforms, Vals_all_dedup _ ys .nil hall rfl]
+      · -- MutableMapping[k, v], a dict
+        rw [hty] at h ⊢
+        simp only [] at h
+        obtain ⟨out, rfl, hout⟩ := addItemsDict_conforms E n inst sp k w kvs .nil r rfl h
+        simp [conformsDeep, conforms, hout]
+
+/-- what `prepare_attr_value` hands to `mutate_attr` is fine as soon as `check_type` accepts it -/
+theorem prepareAttrValue_deepIf (n : Nat) (inst : Val) (sp : AttrSpec) (v : Val) (kw : Kw) (r : Val)
+    (h : prepareAttrValue E n inst sp v kw = .ok r) : DeepIf E sp.ty r := by
+  by_cases habs : sp.ty.isAbstract = true
+  · intro hc
+    cases n with
+    | zero => rw [prepareAttrValue] at h; cases h
+    | succ n =>
+      rw [prepareAttrValue] at h
+      split at h
+      · cases h
+        cases hty : sp.ty <;> rw [hty] at habs hc <;> simp [Ty.isAbstract] at habs <;> simp [conforms] at hc
+      · split at h
+        · cases h
+        · have hcoll : sp.ty.isCollection = true := by
+            cases hty : sp.ty <;> rw [hty] at habs <;> simp [Ty.isAbstract] at habs <;> rfl
+          simp only [hcoll, if_true] at h
+          exact collPrepare_deep E n inst sp _ r habs h
+  · exact deepIf_of_not_abstract E r (by simpa using habs)
+
 /-! ## the recursive knot keeps values well typed, for every fuel -/
 
 structure Knot (n : Nat) : Prop where
@@ -511,6 +690,8 @@ structure Knot (n : Nat) : Prop where
   coll : ∀ inst sp v r, WT E inst → WT E v → collPrepare E n inst sp v = .ok r → WT E r
   addSeq : ∀ inst sp items acc r, WT E inst → wtVals E items = true → wtVals E acc = true →
     addItemsSeq E n inst sp items acc = .ok r → wtVals E r = true
+  prepSeq : ∀ inst sp items acc r, WT E inst → wtVals E items = true → wtVals E acc = true →
+    prepItems E n inst sp items acc = .ok r → wtVals E r = true
   addDict : ∀ inst sp kt vt kvs acc r, WT E inst → wtKVs E kvs = true → wtKVs E acc = true →
     addItemsDict E n inst sp kt vt kvs acc = .ok r → WT E r
   ctor : CtorOK E (construct E n)
@@ -546,7 +727,8 @@ theorem mvok_transform (f : Option Tr) (kt : KwT) (ty : Option Ty) (hf : ∀ g, 
 
 theorem mutateAttrV_wt (hE : EnvOK E) {obj : Val} {c a : Nat} {sp : AttrSpec} {pv r : Val} {skip : Bool}
     (hi : IsInst c obj) (ho : WT E obj)
-    (hsp : E.attr? c a = some sp) (hpv : WT E pv) (h : mutateAttrV E skip obj sp pv = .ok r) : WT E r := by
+    (hsp : E.attr? c a = some sp) (hpv : WT E pv) (hdeep : DeepIf E sp.ty pv)
+    (h : mutateAttrV E skip obj sp pv = .ok r) : WT E r := by
   unfold mutateAttrV at h
   split at h
   · cases h; exact ho
@@ -562,7 +744,7 @@ theorem mutateAttrV_wt (hE : EnvOK E) {obj : Val} {c a : Nat} {sp : AttrSpec} {p
         intro sp' hsp'
         rw [hname, hsp] at hsp'
         cases hsp'
-        simpa using hconf
+        exact hdeep (by simpa using hconf)
       split
       · exact hnew
       · exact wt_invalidate E hE _ _ hnew
@@ -574,6 +756,7 @@ theorem knot (hE : EnvOK E) : ∀ n, Knot E n
       prep := by intro inst sp v kw r _ _ _ h; rw [prepareAttrValue] at h; cases h
       coll := by intro inst sp v r _ _ h; rw [collPrepare] at h; cases h
       addSeq := by intro inst sp items acc r _ _ _ h; rw [addItemsSeq] at h; cases h
+      prepSeq := by intro inst sp items acc r _ _ _ h; rw [prepItems] at h; cases h
       addDict := by intro inst sp kt vt kvs acc r _ _ _ h; rw [addItemsDict] at h; cases h
       ctor := by intro c kw r _ h; rw [construct] at h; cases h }
   | n+1 =>
@@ -601,7 +784,7 @@ theorem knot (hE : EnvOK E) : ∀ n, Knot E n
             | ok pv =>
               rw [hp] at h; simp only [] at h
               have hpv := ih.prep _ sp v [] pv ho hv (by intro kv hkv; cases hkv) hp
-              exact mutateAttrV_wt E hE ⟨fs, rfl⟩ ho hsp hpv h
+              exact mutateAttrV_wt E hE ⟨fs, rfl⟩ ho hsp hpv (prepareAttrValue_deepIf E n _ sp v [] pv hp) h
         | sc s => rw [setAttrV] at h <;> first | cases h | (intros; simp_all)
         | list xs => rw [setAttrV] at h <;> first | cases h | (intros; simp_all)
         | set xs => rw [setAttrV] at h <;> first | cases h | (intros; simp_all)
@@ -622,7 +805,35 @@ theorem knot (hE : EnvOK E) : ∀ n, Knot E n
           · cases h; exact hv'
       coll := by
         intro inst sp v r hi hv h
-        rw [collPrepare] at h
+        unfold collPrepare at h
+        by_cases habs : sp.ty.isAbstract = true
+        · simp only [habs, if_true] at h
+          split at h
+          · cases h
+          split at h
+          · cases h
+          rename_i hconf
+          have hconf' : conforms E sp.ty v = true := by simpa using hconf
+          split at h
+          · cases h; exact hv
+          · by_cases hip : sp.itemPrep.isSome = true
+            · simp only [hip, if_true] at h; cases h
+            simp only [hip, if_false, Bool.false_eq_true] at h
+            rcases abstract_conforms_cases E habs hconf' with
+              ⟨t, xs, hty, rfl⟩ | ⟨t, xs, hty, rfl⟩ | ⟨k, w, kvs, hty, rfl⟩
+            · rw [hty] at h
+              simp only [] at h
+              obtain ⟨ys, hys, rfl⟩ := map_ok h
+              exact ih.prepSeq inst sp xs .nil ys hi hv rfl hys
+            · rw [hty] at h
+              simp only [] at h
+              obtain ⟨ys, hys, rfl⟩ := map_ok h
+              exact wtVals_dedup E ys .nil (ih.prepSeq inst sp xs .nil ys hi hv rfl hys) rfl
+            · rw [hty] at h
+              simp only [] at h
+              exact ih.addDict inst sp k w kvs .nil r hi hv rfl h
+        have habs' : sp.ty.isAbstract = false := by simpa using habs
+        simp only [habs', Bool.false_eq_true, if_false] at h
         have hv0wt : WT E (normNone sp.ty v) := by
           unfold normNone
           split
@@ -666,6 +877,9 @@ theorem knot (hE : EnvOK E) : ∀ n, Knot E n
           | union a b => rw [hty] at h; exact hseq Val.list (fun ys hys => hys) h
           | spec c => rw [hty] at h; exact hseq Val.list (fun ys hys => hys) h
           | valid b p => rw [hty] at h; exact hseq Val.list (fun ys hys => hys) h
+          | mseq t => rw [hty] at habs'; simp [Ty.isAbstract] at habs'
+          | mset t => rw [hty] at habs'; simp [Ty.isAbstract] at habs'
+          | mmap k w => rw [hty] at habs'; simp [Ty.isAbstract] at habs'
         · cases h; exact hv0wt
       addSeq := by
         intro inst sp items acc r hi hitems hacc h
@@ -688,6 +902,26 @@ theorem knot (hE : EnvOK E) : ∀ n, Knot E n
             split at h
             · cases h
             · exact ih.addSeq inst sp xs (acc.snoc y) r hi hitems.2 (by rw [wtVals_snoc]; simp [hacc, hy]) h
+      prepSeq := by
+        intro inst sp items acc r hi hitems hacc h
+        cases items with
+        | nil =>
+          rw [prepItems] at h
+          · cases h; exact hacc
+          · simp
+        | cons x xs =>
+          rw [prepItems] at h
+          simp only [wtVals, Bool.and_eq_true] at hitems
+          cases hm : mutateValue E n x { ty := some sp.ty.itemTy, transform := some (fun v => v) } with
+          | error e => rw [hm] at h; cases h
+          | ok y =>
+            rw [hm] at h; simp only [] at h
+            have hy := ih.mv x _ y hitems.1
+              (mvok_transform E (some (fun v => v)) [] (some sp.ty.itemTy)
+                (by intro g hg; cases hg; exact fun v hv => hv) (by intro af haf; cases haf)) hm
+            split at h
+            · cases h
+            · exact ih.prepSeq inst sp xs (acc.snoc y) r hi hitems.2 (by rw [wtVals_snoc]; simp [hacc, hy]) h
       addDict := by
         intro inst sp kt vt kvs acc r hi hkvs hacc h
         cases kvs with
@@ -781,7 +1015,8 @@ theorem specOf_inst {recv : Val} {a : Nat} {sp : AttrSpec} (h : specOf E recv a 
   | dict kvs => simp [Option.bind] at h
 
 theorem outOK_mutateAttr (hE : EnvOK E) (recv : Val) (a : Nat) (sp : AttrSpec) (pv : Val) (i : Bool)
-    (hsp : specOf E recv a = some sp) (h : WT E recv) (hpv : WT E pv) : OutOK E (mutateAttr E recv sp pv i) := by
+    (hsp : specOf E recv a = some sp) (h : WT E recv) (hpv : WT E pv) (hdeep : DeepIf E sp.ty pv) :
+    OutOK E (mutateAttr E recv sp pv i) := by
   obtain ⟨c, fs, rfl, hattr⟩ := specOf_inst E hsp
   unfold mutateAttr
   split
@@ -797,7 +1032,7 @@ theorem outOK_mutateAttr (hE : EnvOK E) (recv : Val) (a : Nat) (sp : AttrSpec) (
         intro sp' hsp'
         rw [hname, hattr] at hsp'
         cases hsp'
-        simpa using hconf
+        exact hdeep (by simpa using hconf)
       have hnew := wt_invalidate E hE _ sp.name hnew0
       split
       · exact ⟨hnew, hnew⟩
@@ -815,6 +1050,7 @@ theorem outOK_withAttr (hE : EnvOK E) (n : Nat) (recv : Val) (a : Nat) (sp : Att
       | error e => trivial
       | ok pv =>
         exact outOK_mutateAttr E hE recv a sp pv i hsp h ((knot E hE n).prep recv sp v kw pv h hv hk hp)
+          (prepareAttrValue_deepIf E n recv sp v kw pv hp)
 
 theorem outOK_updateAttr (hE : EnvOK E) (n : Nat) (recv : Val) (a : Nat) (sp : AttrSpec) (v : Val) (kw : Kw)
     (i cnd : Bool) (hsp : specOf E recv a = some sp) (h : WT E recv) (hv : WT E v) (hk : ∀ kv ∈ kw, WT E kv.2) :
@@ -861,7 +1097,7 @@ theorem wt_delAttrV (hE : EnvOK E) (n : Nat) (recv : Val) (a : Nat) (sp : AttrSp
     | ok pv =>
       rw [hp] at hd; simp only [] at hd
       have hpv := (knot E hE n).prep _ sp _ [] pv h (hE.defaultWT c a sp hattr) (by intro kv hkv; cases hkv) hp
-      exact mutateAttrV_wt E hE ⟨fs, rfl⟩ h hattr hpv hd
+      exact mutateAttrV_wt E hE ⟨fs, rfl⟩ h hattr hpv (prepareAttrValue_deepIf E n _ sp _ [] pv hp) hd
 
 theorem outOK_resetAttr (hE : EnvOK E) (n : Nat) (recv : Val) (a : Nat) (sp : AttrSpec) (i cnd : Bool)
     (hsp : specOf E recv a = some sp) (h : WT E recv) : OutOK E (resetAttr E n recv sp i cnd) := by
@@ -1059,8 +1295,22 @@ theorem seqExtract_wt (t : Ty) (xs : List Val) (voi : Val) (raise : Bool) (by_ :
         cases raise <;> simp at h
         obtain ⟨_, rfl⟩ := h; exact hv
 
+/-- the value of a sequence attribute (`List[t]` or the abstract `MutableSequence[t]`) that conforms deeply -/
+theorem deep_list {ty t : Ty} {v : Val} (hty : ty = .list t ∨ ty = .mseq t) (hd : conformsDeep E ty v = true) :
+    ∃ ys, v = .list ys ∧ ys.all (conforms E t) = true := by
+  rcases hty with rfl | rfl <;> cases v <;> simp [conformsDeep, conforms] at hd ⊢ <;> exact hd
+
+theorem deep_set {ty t : Ty} {v : Val} (hty : ty = .set t ∨ ty = .mset t) (hd : conformsDeep E ty v = true) :
+    ∃ ys, v = .set ys ∧ ys.all (conforms E t) = true := by
+  rcases hty with rfl | rfl <;> cases v <;> simp [conformsDeep, conforms] at hd ⊢ <;> exact hd
+
+theorem deep_dict {ty kt vt : Ty} {v : Val} (hty : ty = .dict kt vt ∨ ty = .mmap kt vt)
+    (hd : conformsDeep E ty v = true) :
+    ∃ kvs, v = .dict kvs ∧ kvs.all (fun k' v' => conforms E kt k' && conforms E vt v') = true := by
+  rcases hty with rfl | rfl <;> cases v <;> simp [conformsDeep, conforms] at hd ⊢ <;> exact hd
+
 theorem curList_ok (hE : EnvOK E) (c : Nat) (fs : Flds) (a : Nat) (sp : AttrSpec) (t : Ty) (xs : List Val)
-    (h : WT E (.inst c fs)) (hsp : E.attr? c a = some sp) (hty : sp.ty = .list t)
+    (h : WT E (.inst c fs)) (hsp : E.attr? c a = some sp) (hty : sp.ty = .list t ∨ sp.ty = .mseq t)
     (hc : curList E (.inst c fs) sp = .ok xs) :
     (∀ x ∈ xs, conforms E t x = true) ∧ (∀ x ∈ xs, wt E x = true) := by
   have hname := attr?_name E hsp
@@ -1069,20 +1319,14 @@ theorem curList_ok (hE : EnvOK E) (c : Nat) (fs : Flds) (a : Nat) (sp : AttrSpec
   have hwt := wt_getAttr E hE (.inst c fs) a h
   rcases getAttr_conforms E hE c fs a sp h hsp with hm | hconf
   · rw [hm] at hc; simp at hc; subst hc; exact ⟨by simp, by simp⟩
-  · rw [hty] at hconf
-    cases hg : E.getAttr (.inst c fs) a with
-    | list ys =>
-      rw [hg] at hc hconf hwt; simp only [] at hc; cases hc
-      simp only [conforms, Vals_all_toList] at hconf
-      simp only [WT, wt, wtVals_toList] at hwt
-      exact ⟨(all_iff _ _).1 hconf, (all_iff _ _).1 hwt⟩
-    | sc s => rw [hg] at hconf; simp [conforms] at hconf
-    | set ys => rw [hg] at hconf; simp [conforms] at hconf
-    | dict kvs => rw [hg] at hconf; simp [conforms] at hconf
-    | inst c' fs' => rw [hg] at hconf; simp [conforms] at hconf
+  · obtain ⟨ys, hg, hall⟩ := deep_list E hty hconf
+    rw [hg] at hc hwt; simp only [] at hc; cases hc
+    simp only [Vals_all_toList] at hall
+    simp only [WT, wt, wtVals_toList] at hwt
+    exact ⟨(all_iff _ _).1 hall, (all_iff _ _).1 hwt⟩
 
 theorem curSet_ok (hE : EnvOK E) (c : Nat) (fs : Flds) (a : Nat) (sp : AttrSpec) (t : Ty) (xs : List Val)
-    (h : WT E (.inst c fs)) (hsp : E.attr? c a = some sp) (hty : sp.ty = .set t)
+    (h : WT E (.inst c fs)) (hsp : E.attr? c a = some sp) (hty : sp.ty = .set t ∨ sp.ty = .mset t)
     (hc : curSet E (.inst c fs) sp = .ok xs) :
     (∀ x ∈ xs, conforms E t x = true) ∧ (∀ x ∈ xs, wt E x = true) := by
   have hname := attr?_name E hsp
@@ -1091,20 +1335,14 @@ theorem curSet_ok (hE : EnvOK E) (c : Nat) (fs : Flds) (a : Nat) (sp : AttrSpec)
   have hwt := wt_getAttr E hE (.inst c fs) a h
   rcases getAttr_conforms E hE c fs a sp h hsp with hm | hconf
   · rw [hm] at hc; simp at hc; subst hc; exact ⟨by simp, by simp⟩
-  · rw [hty] at hconf
-    cases hg : E.getAttr (.inst c fs) a with
-    | set ys =>
-      rw [hg] at hc hconf hwt; simp only [] at hc; cases hc
-      simp only [conforms, Vals_all_toList] at hconf
-      simp only [WT, wt, wtVals_toList] at hwt
-      exact ⟨(all_iff _ _).1 hconf, (all_iff _ _).1 hwt⟩
-    | sc s => rw [hg] at hconf; simp [conforms] at hconf
-    | list ys => rw [hg] at hconf; simp [conforms] at hconf
-    | dict kvs => rw [hg] at hconf; simp [conforms] at hconf
-    | inst c' fs' => rw [hg] at hconf; simp [conforms] at hconf
+  · obtain ⟨ys, hg, hall⟩ := deep_set E hty hconf
+    rw [hg] at hc hwt; simp only [] at hc; cases hc
+    simp only [Vals_all_toList] at hall
+    simp only [WT, wt, wtVals_toList] at hwt
+    exact ⟨(all_iff _ _).1 hall, (all_iff _ _).1 hwt⟩
 
 theorem curDict_ok (hE : EnvOK E) (c : Nat) (fs : Flds) (a : Nat) (sp : AttrSpec) (kt vt : Ty) (kvs : KVs)
-    (h : WT E (.inst c fs)) (hsp : E.attr? c a = some sp) (hty : sp.ty = .dict kt vt)
+    (h : WT E (.inst c fs)) (hsp : E.attr? c a = some sp) (hty : sp.ty = .dict kt vt ∨ sp.ty = .mmap kt vt)
     (hc : curDict E (.inst c fs) sp = .ok kvs) :
     kvs.all (fun k' v' => conforms E kt k' && conforms E vt v') = true ∧ wtKVs E kvs = true := by
   have hname := attr?_name E hsp
@@ -1113,15 +1351,9 @@ theorem curDict_ok (hE : EnvOK E) (c : Nat) (fs : Flds) (a : Nat) (sp : AttrSpec
   have hwt := wt_getAttr E hE (.inst c fs) a h
   rcases getAttr_conforms E hE c fs a sp h hsp with hm | hconf
   · rw [hm] at hc; simp at hc; subst hc; exact ⟨rfl, rfl⟩
-  · rw [hty] at hconf
-    cases hg : E.getAttr (.inst c fs) a with
-    | dict ys =>
-      rw [hg] at hc hconf hwt; simp only [] at hc; cases hc
-      exact ⟨by simpa [conforms] using hconf, hwt⟩
-    | sc s => rw [hg] at hconf; simp [conforms] at hconf
-    | list ys => rw [hg] at hconf; simp [conforms] at hconf
-    | set ys => rw [hg] at hconf; simp [conforms] at hconf
-    | inst c' fs' => rw [hg] at hconf; simp [conforms] at hconf
+  · obtain ⟨ys, hg, hall⟩ := deep_dict E hty hconf
+    rw [hg] at hc hwt; simp only [] at hc; cases hc
+    exact ⟨hall, hwt⟩
 
 theorem kvs_all_set (p : Val → Val → Bool) (k v : Val) (hp : p k v = true) :
     ∀ (kvs : KVs), kvs.all p = true → (kvs.set k v).all p = true
@@ -1387,38 +1619,63 @@ theorem setColl_ok (hE : EnvOK E) (n : Nat) (recv : Val) (sp : AttrSpec) (t : Ty
   | mapTransform k f => simp [setColl] at h
   | mapWithout k => simp [setColl] at h
 
-/-- the collection an element helper builds conforms to the attribute's annotation and is well typed -/
+/-- the collection an element helper builds conforms (deeply) to the attribute's annotation and is well typed -/
 theorem elemColl_ok (hE : EnvOK E) (n c : Nat) (fs : Flds) (a : Nat) (sp : AttrSpec) (op : EOp) (coll : Val)
     (hr : WT E (.inst c fs)) (hsp : E.attr? c a = some sp) (hop : EOpOK E op)
-    (h : elemColl E n (.inst c fs) sp op = .ok coll) : conforms E sp.ty coll = true ∧ WT E coll := by
+    (h : elemColl E n (.inst c fs) sp op = .ok coll) : conformsDeep E sp.ty coll = true ∧ WT E coll := by
   unfold elemColl at h
-  cases hty : sp.ty with
-  | list t =>
-    rw [hty] at h; simp only [] at h
+  split at h
+  · cases h
+  have hseq : ∀ t, sp.ty = .list t ∨ sp.ty = .mseq t →
+      (do let xs ← curList E (.inst c fs) sp
+          let ys ← seqColl E n (.inst c fs) sp t xs op
+          pure (Val.list (Vals.ofList ys))) = Except.ok coll →
+      conformsDeep E sp.ty coll = true ∧ WT E coll := by
+    intro t hty h
     obtain ⟨xs, hx, h⟩ := bind_ok h
     obtain ⟨ys, hy, h⟩ := bind_ok h
     simp [pure, Except.pure] at h; subst h
     obtain ⟨hc, hw⟩ := curList_ok E hE c fs a sp t xs hr hsp hty hx
     obtain ⟨hc', hw'⟩ := seqColl_ok E hE n _ sp t xs ys op hr hop hc hw hy
-    exact ⟨by rw [conforms_list_ofList]; exact (all_iff _ _).2 hc',
-           by unfold WT; rw [wt_list_ofList]; exact (all_iff _ _).2 hw'⟩
-  | set t =>
-    rw [hty] at h; simp only [] at h
+    refine ⟨?_, by unfold WT; rw [wt_list_ofList]; exact (all_iff _ _).2 hw'⟩
+    have hall : (Vals.ofList ys).all (conforms E t) = true := by
+      rw [Vals_all_toList, toList_ofList]; exact (all_iff _ _).2 hc'
+    rcases hty with hty | hty <;> rw [hty] <;> simp [conformsDeep, conforms, hall]
+  have hset : ∀ t, sp.ty = .set t ∨ sp.ty = .mset t →
+      (do let xs ← curSet E (.inst c fs) sp
+          let ys ← setColl E n (.inst c fs) sp t xs op
+          pure (Val.set (Vals.ofList ys))) = Except.ok coll →
+      conformsDeep E sp.ty coll = true ∧ WT E coll := by
+    intro t hty h
     obtain ⟨xs, hx, h⟩ := bind_ok h
     obtain ⟨ys, hy, h⟩ := bind_ok h
     simp [pure, Except.pure] at h; subst h
     obtain ⟨hc, hw⟩ := curSet_ok E hE c fs a sp t xs hr hsp hty hx
     obtain ⟨hc', hw'⟩ := setColl_ok E hE n _ sp t xs ys op hr hop hc hw hy
-    exact ⟨by rw [conforms_set_ofList]; exact (all_iff _ _).2 hc',
-           by unfold WT; rw [wt_set_ofList]; exact (all_iff _ _).2 hw'⟩
-  | dict kt vt =>
-    rw [hty] at h; simp only [] at h
+    refine ⟨?_, by unfold WT; rw [wt_set_ofList]; exact (all_iff _ _).2 hw'⟩
+    have hall : (Vals.ofList ys).all (conforms E t) = true := by
+      rw [Vals_all_toList, toList_ofList]; exact (all_iff _ _).2 hc'
+    rcases hty with hty | hty <;> rw [hty] <;> simp [conformsDeep, conforms, hall]
+  have hmap : ∀ kt vt, sp.ty = .dict kt vt ∨ sp.ty = .mmap kt vt →
+      (do let kvs ← curDict E (.inst c fs) sp
+          let kvs' ← mapColl E n (.inst c fs) sp kt vt kvs op
+          pure (Val.dict kvs')) = Except.ok coll →
+      conformsDeep E sp.ty coll = true ∧ WT E coll := by
+    intro kt vt hty h
     obtain ⟨kvs, hx, h⟩ := bind_ok h
     obtain ⟨kvs', hy, h⟩ := bind_ok h
     simp [pure, Except.pure] at h; subst h
     obtain ⟨hc, hw⟩ := curDict_ok E hE c fs a sp kt vt kvs hr hsp hty hx
     obtain ⟨hc', hw'⟩ := mapColl_ok E hE n _ sp kt vt kvs kvs' op hr hop hc hw hy
-    exact ⟨by simpa [conforms] using hc', hw'⟩
+    refine ⟨?_, hw'⟩
+    rcases hty with hty | hty <;> rw [hty] <;> simp [conformsDeep, conforms, hc']
+  cases hty : sp.ty with
+  | list t => rw [hty] at h; simp only [] at h; rw [← hty]; exact hseq t (Or.inl hty) h
+  | mseq t => rw [hty] at h; simp only [] at h; rw [← hty]; exact hseq t (Or.inr hty) h
+  | set t => rw [hty] at h; simp only [] at h; rw [← hty]; exact hset t (Or.inl hty) h
+  | mset t => rw [hty] at h; simp only [] at h; rw [← hty]; exact hset t (Or.inr hty) h
+  | dict kt vt => rw [hty] at h; simp only [] at h; rw [← hty]; exact hmap kt vt (Or.inl hty) h
+  | mmap kt vt => rw [hty] at h; simp only [] at h; rw [← hty]; exact hmap kt vt (Or.inr hty) h
   | any => rw [hty] at h; cases h
   | int => rw [hty] at h; cases h
   | str => rw [hty] at h; cases h
